@@ -251,34 +251,18 @@ fn decimal(v: i128, dec: u32) -> String {
     s
 }
 
-/// (prefix, suffix spelling) pairs the code accepts, JD in ET/TDB excluded (documented as approximate)
-const NUM_PAIRS: [(&str, &str); 19] = [
-    ("JD", "TAI"),
-    ("JD", "UTC"),
-    ("MJD", "TAI"),
-    ("MJD", "UTC"),
-    ("MJD", "GPS"),
-    ("MJD", "GST"),
-    ("MJD", "GAL"),
-    ("MJD", "BDT"),
-    ("MJD", "BDS"),
-    ("SEC", "TAI"),
-    ("SEC", "TT"),
-    ("SEC", "ET"),
-    ("SEC", "TDB"),
-    ("SEC", "UTC"),
-    ("SEC", "GPS"),
-    ("SEC", "GST"),
-    ("SEC", "GAL"),
-    ("SEC", "BDT"),
-    ("SEC", "BDS"),
-];
+/// every prefix with every spelling `TimeScale::from_str` knows: the nine Display names and the RINEX
+/// spellings GPS GAL BDS QZSS.  The property requires {JD, MJD, SEC} x {TAI, TT, UTC, GPST, GST, BDT, QZSST}
+/// (uniform scales and UTC, written with the Display name); the other pairs are judged when accepted.
+const NUM_PREFIXES: [&str; 3] = ["JD", "MJD", "SEC"];
+const NUM_SUFFIXES: [&str; 13] = ["TAI", "TT", "ET", "TDB", "UTC", "GPST", "GPS", "GST", "GAL", "BDT", "BDS", "QZSST", "QZSS"];
 
 fn scale_of_suffix(sfx: &str) -> &'static str {
     match sfx {
-        "GPS" => "GPST",
+        "GPS" | "GPST" => "GPST",
         "GAL" | "GST" => "GST",
         "BDS" | "BDT" => "BDT",
+        "QZSS" | "QZSST" => "QZSST",
         "TAI" => "TAI",
         "UTC" => "UTC",
         "TT" => "TT",
@@ -289,7 +273,12 @@ fn scale_of_suffix(sfx: &str) -> &'static str {
 
 /// one numeric-form line: a value inside the years 0001-9999 of the scale's calendar
 fn numeric_line(r: &mut Rng, out: &mut dyn Write) {
-    let (prefix, sfx) = *r.pick(&NUM_PAIRS);
+    let prefix = *r.pick(&NUM_PREFIXES);
+    let sfx = *r.pick(&NUM_SUFFIXES);
+    numeric_line_for(r, out, prefix, sfx)
+}
+
+fn numeric_line_for(r: &mut Rng, out: &mut dyn Write, prefix: &str, sfx: &str) {
     let ts = scale_of_suffix(sfx);
     let f = pick_fields(r);
     // nanoseconds since 1900-01-01T00:00:00 of the scale's calendar, aimed at day / half day / second / ms / anything
@@ -347,6 +336,111 @@ fn numeric_line(r: &mut Rng, out: &mut dyn Write) {
     writeln!(out, "nparse {} {} {} {}", str2hex(&text), prefix, str2hex(&text_num), sfx).unwrap();
 }
 
+// ------------------------------------------------------------------------------------ second = 60
+
+/// days whose last UTC minute has 61 seconds (the day before each entry of data/leap-seconds.list)
+const LEAP_DAYS: [(i64, i64, i64); 28] = [
+    (1971, 12, 31), (1972, 6, 30), (1972, 12, 31), (1973, 12, 31), (1974, 12, 31), (1975, 12, 31), (1976, 12, 31),
+    (1977, 12, 31), (1978, 12, 31), (1979, 12, 31), (1981, 6, 30), (1982, 6, 30), (1983, 6, 30), (1985, 6, 30),
+    (1987, 12, 31), (1989, 12, 31), (1990, 12, 31), (1992, 6, 30), (1993, 6, 30), (1994, 6, 30), (1995, 12, 31),
+    (1997, 6, 30), (1998, 12, 31), (2005, 12, 31), (2008, 12, 31), (2012, 6, 30), (2015, 6, 30), (2016, 12, 31),
+];
+
+/// the local date and minute of day that show the minute `m` (0..1440) of day (y, mo, d) with the offset `off` minutes
+fn shift_minutes(y: i64, mo: i64, d: i64, m: i64, off: i64) -> (i64, i64, i64, i64) {
+    let t = m + off;
+    if t >= 1440 {
+        if d < month_len(y, mo) {
+            (y, mo, d + 1, t - 1440)
+        } else if mo < 12 {
+            (y, mo + 1, 1, t - 1440)
+        } else {
+            (y + 1, 1, 1, t - 1440)
+        }
+    } else if t < 0 {
+        if d > 1 {
+            (y, mo, d - 1, t + 1440)
+        } else if mo > 1 {
+            (y, mo - 1, month_len(y, mo - 1), t + 1440)
+        } else {
+            (y - 1, 12, 31, t + 1440)
+        }
+    } else {
+        (y, mo, d, t)
+    }
+}
+
+/// one text with second = 60. `kind`: 0 a true leap-second label in UTC without offset, 1 the same label
+/// shown with a non-zero offset (RFC 3339 5.8), 2 a leap-second day 23:59:60 local with a non-zero offset
+/// (the UTC label is not 23:59), 3 another scale on a leap-second day (with and without offset) or elsewhere,
+/// 4 another day or minute
+fn second60_line(r: &mut Rng, out: &mut dyn Write, kind: u64) {
+    let (y, mo, d) = *r.pick(&LEAP_DAYS);
+    let (nd, frac) = pick_frac(r);
+    let op = *r.pick(&["eparse", "gregparse"]);
+    let (sg, oh, om) = {
+        let (sg, oh, om) = pick_offset(r);
+        if oh == 0 && om == 0 {
+            (sg, 1 + r.below(23) as i64, om)
+        } else {
+            (sg, oh, om)
+        }
+    };
+    let off = (if sg == 'm' { -1 } else { 1 }) * (oh * 60 + om);
+    match kind {
+        0 => {
+            let f = F { y, mo, d, h: 23, mi: 59, s: 60 };
+            match r.below(5) {
+                0 => parse_line(out, op, &render("Z", f, nd, frac, 'p', 0, 0, "UTC"), "Z", f, nd, frac, 'p', 0, 0, "UTC"),
+                1 => parse_line(out, op, &render("ZT", f, nd, frac, 'p', 0, 0, "UTC"), "ZT", f, nd, frac, 'p', 0, 0, "UTC"),
+                2 => parse_line(out, op, &render("D", f, nd, frac, 'p', 0, 0, "UTC"), "D", f, nd, frac, 'p', 0, 0, "UTC"),
+                3 => parse_line(out, op, &render("O", f, nd, frac, 'p', 0, 0, "UTC"), "O", f, nd, frac, 'p', 0, 0, "UTC"),
+                _ => parse_line(out, op, &render("OT", f, nd, frac, 'm', 0, 0, "UTC"), "OT", f, nd, frac, 'm', 0, 0, "UTC"),
+            }
+        }
+        1 => {
+            let (ly, lmo, ld, lm) = shift_minutes(y, mo, d, 1439, off);
+            let f = F { y: ly, mo: lmo, d: ld, h: lm / 60, mi: lm % 60, s: 60 };
+            let form = if r.chance(1, 3) { "OT" } else { "O" };
+            parse_line(out, op, &render(form, f, nd, frac, sg, oh, om, "UTC"), form, f, nd, frac, sg, oh, om, "UTC")
+        }
+        2 => {
+            let f = F { y, mo, d, h: 23, mi: 59, s: 60 };
+            let form = if r.chance(1, 3) { "OT" } else { "O" };
+            parse_line(out, op, &render(form, f, nd, frac, sg, oh, om, "UTC"), form, f, nd, frac, sg, oh, om, "UTC")
+        }
+        3 => {
+            let ts = *r.pick(&["TAI", "TT", "ET", "TDB", "GPST", "GST", "BDT", "QZSST"]);
+            if r.chance(1, 4) {
+                // the label of that scale's own clock shown with a non-zero offset
+                let (ly, lmo, ld, lm) = shift_minutes(y, mo, d, 1439, off);
+                let f = F { y: ly, mo: lmo, d: ld, h: lm / 60, mi: lm % 60, s: 60 };
+                return parse_line(out, op, &render("OT", f, nd, frac, sg, oh, om, ts), "OT", f, nd, frac, sg, oh, om, ts);
+            }
+            let f = if r.chance(3, 4) { F { y, mo, d, h: 23, mi: 59, s: 60 } } else { F { s: 60, ..pick_fields(r) } };
+            match r.below(3) {
+                0 => parse_line(out, op, &render("D", f, nd, frac, 'p', 0, 0, ts), "D", f, nd, frac, 'p', 0, 0, ts),
+                1 => parse_line(out, op, &render("ZT", f, nd, frac, 'p', 0, 0, ts), "ZT", f, nd, frac, 'p', 0, 0, ts),
+                _ => parse_line(out, op, &render("OT", f, nd, frac, sg, oh, om, ts), "OT", f, nd, frac, sg, oh, om, ts),
+            }
+        }
+        _ => {
+            // UTC, not a leap second: another day (same date in a neighbouring year, 30 June / 31 December of
+            // any year, any day) or the right day at another minute
+            let f = match r.below(4) {
+                0 => F { y: y + *r.pick(&[-1i64, 1, 2]), mo, d, h: 23, mi: 59, s: 60 },
+                1 => F { y, mo, d, h: *r.pick(&[0i64, 12, 22, 23]), mi: *r.pick(&[0i64, 58, 59]), s: 60 },
+                2 => F { y: pick_year(r), mo: *r.pick(&[6i64, 12]), d: 30, h: 23, mi: 59, s: 60 },
+                _ => F { s: 60, ..pick_fields(r) },
+            };
+            let f = if f.h == 23 && f.mi == 59 && LEAP_DAYS.contains(&(f.y, f.mo, f.d)) { F { mi: 58, ..f } } else { f };
+            let form = *r.pick(&["Z", "D", "O"]);
+            let (sg2, oh2, om2) = if form == "O" { ('p', 0, 0) } else { ('p', 0, 0) };
+            parse_line(out, op, &render(form, f, nd, frac, sg2, oh2, om2, "UTC"), form, f, nd, frac, sg2, oh2, om2, "UTC")
+        }
+    }
+}
+
 pub fn inputs_c10(r: &mut Rng, n: usize, _tier: &str, out: &mut dyn Write) {
     // boundary block: every scale x named years x first/last day x first/last ns: all renderings read back
     for (k, ts) in SCALE_NAMES.iter().enumerate() {
@@ -385,9 +479,20 @@ pub fn inputs_c10(r: &mut Rng, n: usize, _tier: &str, out: &mut dyn Write) {
         let text = render("O", f, 0, 0, sg, om % 10, om, "UTC");
         parse_line(out, "eparse", &text, "O", f, 0, 0, sg, om % 10, om, "UTC");
     }
+    // every (prefix, suffix spelling) pair of the numeric forms on every run
+    for prefix in NUM_PREFIXES.iter() {
+        for sfx in NUM_SUFFIXES.iter() {
+            numeric_line_for(r, out, prefix, sfx);
+            numeric_line_for(r, out, prefix, sfx);
+        }
+    }
+    // second = 60: every kind a few times on every run
+    for k in 0..60u64 {
+        second60_line(r, out, k % 5);
+    }
     for _ in 0..n {
         let ts = SCALE_NAMES[r.below(9) as usize];
-        match r.below(40) {
+        match r.below(42) {
             0..=5 => {
                 let kind = *r.pick(&["display", "gregstr", "isofmt", "json"]);
                 writeln!(out, "ert {} {}", kind, estr(epoch_c10(r, ts), ts)).unwrap()
@@ -428,7 +533,11 @@ pub fn inputs_c10(r: &mut Rng, n: usize, _tier: &str, out: &mut dyn Write) {
                 let op = *r.pick(&["eparse", "gregparse"]);
                 parse_line(out, op, &text, form, f, nd, frac, sg, oh, om, tsn)
             }
-            _ => numeric_line(r, out),
+            34..=39 => numeric_line(r, out),
+            _ => {
+                let k = r.below(5);
+                second60_line(r, out, k)
+            }
         }
     }
 }
@@ -517,7 +626,8 @@ fn base_epoch_text(r: &mut Rng) -> String {
             render(form, f, nd, frac, sg, oh, om, tsn)
         }
         9..=11 => {
-            let (prefix, sfx) = *r.pick(&NUM_PAIRS);
+            let prefix = *r.pick(&NUM_PREFIXES);
+            let sfx = *r.pick(&NUM_SUFFIXES);
             let v = r.range_i64(-3_000_000_000, 3_000_000_000) as i128;
             format!("{} {} {}", prefix, decimal(v, r.below(10) as u32), sfx)
         }
@@ -645,7 +755,7 @@ fn mutated(r: &mut Rng, base: String) -> String {
 
 pub fn inputs_c13e(r: &mut Rng, n: usize, _tier: &str, out: &mut dyn Write) {
     // fixed block: the documented past failures and the structural edge strings
-    let fixed: [&str; 64] = [
+    let fixed: [&str; 72] = [
         "", " ", "x", "JD", "MJD", "SEC", "JD TAI", "JD 1 TAI", "SEC 0 TT", "SEC 0 ET", "SEC0 ET", "xé12345", "JD 24 éé", "SEC NaN TAI", "JD inf TAI",
         "MJD 1e400 TAI", "2017-01-14T00:31:55.1234567891 UTC", "2017-01-14T00:31:55.123456789 UTC", "2017-01-14T00:31:55.0000000000", "JD 1éGPS", "MJD 5é GPS",
         "SEC 1😀GPS", "SECéGPS", "SEC GPS", "SECxGPS", "JDxxGPS", "JD  GPS", "JD 1 GPST", "MJD 51544.5 GPS", "MJD 51544.5GPS", "JD 2451545.0  TT",
@@ -655,6 +765,8 @@ pub fn inputs_c13e(r: &mut Rng, n: usize, _tier: &str, out: &mut dyn Write) {
         "2017-01-14T00:31:55.", "2017-01-14T00:31:55.Z", "2017-01-14T00:31:55 U", "2017-01-14T00:31:55 123X", "2017-01-14T00:31:55Z9", "2017-01-14T00:31:5",
         "2017-01-14T00:31:", "2017-01-14T", "2017-01-14", "2017-", "2017", "２０１７-01-14T00:31:55", "2017-01-14T00:31:55 ＵＴＣ", "٢٠١٧-٠١-١٤T٠٠:٣١:٥٥", "2017-01-14T00:31:55\u{a0}UTC",
         "\u{3000}2017-01-14T00:31:55 UTC\u{2003}",
+        "2016-12-31T23:59:60Z", "2017-01-01T09:59:60+10:00", "2016-12-31T23:59:60+10:00", "2016-12-31T23:59:60 TAI", "5000000-12-31T23:59:60Z",
+        "2147483647-12-31T23:59:60-23:59", "0000-01-01T00:00:60+23:59", "5879000-06-30T23:59:60 GPST",
     ];
     for s in fixed.iter() {
         writeln!(out, "p_epoch {}", str2hex(s)).unwrap();
